@@ -13,6 +13,7 @@ import (
 	"diagonal.works/b6"
 	"diagonal.works/b6/ingest"
 	"diagonal.works/b6/ingest/compact"
+	"github.com/golang/geo/s2"
 	"verif/harness/obs"
 	"verif/harness/vh"
 )
@@ -592,6 +593,77 @@ func mutateCopies(copies []ingest.Feature) (problems []string) {
 	return
 }
 
+// polygonAreaProbe: on a fresh world of the same construction, an area whose polygons are given as geometry (not as
+// path IDs) is added and cloned; afterwards the caller replaces polygons of its own value and of the clone's original
+// (SetPolygon, SetPathIDs).  What the world returns, and the clone, must stay as they were.
+func polygonAreaProbe(impl string, base obs.AWorld) (problems []string) {
+	p := vh.Catch(func() {
+		w, err := buildWorld(impl, base)
+		if err != nil {
+			return
+		}
+		tri := func(a, b, c int) *s2.Polygon {
+			return s2.PolygonFromLoops([]*s2.Loop{s2.LoopFromPoints([]s2.Point{s2.PointFromLatLng(obs.Vertex(a)), s2.PointFromLatLng(obs.Vertex(b)), s2.PointFromLatLng(obs.Vertex(c))})})
+		}
+		shape := func(a b6.AreaFeature) string {
+			if a == nil {
+				return "<nil>"
+			}
+			var b bytes.Buffer
+			for i := 0; i < a.Len(); i++ {
+				poly := a.Polygon(i)
+				fmt.Fprintf(&b, "[")
+				if poly != nil {
+					for _, l := range poly.Loops() {
+						for _, v := range l.Vertices() {
+							fmt.Fprintf(&b, "%d ", obs.VertexOf(s2.LatLngFromPoint(v)))
+						}
+					}
+				}
+				if ps := a.Feature(i); ps != nil {
+					fmt.Fprintf(&b, "paths=%d", len(ps))
+				}
+				fmt.Fprintf(&b, "]")
+			}
+			return b.String()
+		}
+		id := obs.ID("A97")
+		a := ingest.NewAreaFeature(2)
+		a.AreaID = id.ToAreaID()
+		a.Tags = b6.Tags{{Key: "n", Value: b6.NewStringExpression("probe")}}
+		a.SetPolygon(0, tri(0, 1, 2))
+		a.SetPolygon(1, tri(3, 4, 5))
+		if err := w.AddFeature(a); err != nil {
+			problems = append(problems, "an area with two polygons given as geometry is rejected: "+err.Error())
+			return
+		}
+		before := shape(b6.FindAreaByID(id.ToAreaID(), w))
+		// the clone first: changing the clone must not change the original, and the other way round
+		clone := a.CloneAreaFeature()
+		clone.SetPolygon(0, tri(6, 7, 8))
+		if poly, ok := a.Polygon(0); !ok || poly.Loop(0).NumVertices() != 3 || obs.VertexOf(s2.LatLngFromPoint(poly.Loop(0).Vertex(0))) != 0 {
+			problems = append(problems, "SetPolygon on the clone of an area changed the original")
+		}
+		clone2 := a.CloneAreaFeature()
+		// now the caller's own value
+		a.SetPolygon(0, tri(6, 7, 8))
+		a.SetPathIDs(1, []b6.FeatureID{obs.ID("W11")})
+		if after := shape(b6.FindAreaByID(id.ToAreaID(), w)); after != before {
+			problems = append(problems, fmt.Sprintf("the world's area changed when the caller replaced polygons of the value it had passed to AddFeature: before %s after %s", before, after))
+		}
+		if poly, ok := clone2.Polygon(0); !ok || poly == nil || obs.VertexOf(s2.LatLngFromPoint(poly.Loop(0).Vertex(0))) != 0 {
+			problems = append(problems, "replacing a polygon of an area changed a clone taken earlier (polygon 0)")
+		}
+		if poly, ok := clone2.Polygon(1); !ok || poly == nil {
+			problems = append(problems, "SetPathIDs on an area removed the polygon of a clone taken earlier (polygon 1)")
+		}
+	})
+	if p != "" {
+		problems = append(problems, "panic: "+p)
+	}
+	return
+}
+
 func describe(f ingest.Feature) string {
 	var b bytes.Buffer
 	fmt.Fprintf(&b, "%s %v", f.FeatureID(), f.AllTags())
@@ -689,6 +761,7 @@ func runWorld(data json.RawMessage) vh.Verdict {
 		}
 	}
 	var copies []ingest.Feature
+	probed := false
 	var snaps []b6.World
 	var snapTaken []obs.Observation
 	type snapshotter interface{ Snapshot() b6.World }
@@ -749,6 +822,12 @@ func runWorld(data json.RawMessage) vh.Verdict {
 			}
 			snapTaken = append(snapTaken, taken)
 		case "mutate":
+			if !probed {
+				probed = true
+				for _, p := range polygonAreaProbe(c.Impl, c.Base) {
+					cm.add(i, "mutate", "polygon-area", p)
+				}
+			}
 			listsBefore := listTags(w, c.IDs)
 			for _, p := range mutateCopies(copies) {
 				cm.add(i, "mutate", "clone-shares-state", p)
